@@ -1343,6 +1343,29 @@ def _range(fr, *a, **kw):
                 done=lambda i: And(lo + O.mul(st, i) >= hi, Or(O.eq(i, 0), lo + O.mul(st, i - 1) < hi)))
 
 
+@lib('numba.prange', 'numba.misc.special.prange', 'prange')
+def _prange(fr, *a, **kw):
+    r = _range(fr, *a)
+    if isinstance(r, list):
+        items = r
+        r = Iter(len(items), lambda i: items[O.conc_int(i)])
+        r.force_iter = True
+    r.prange = True
+    return r
+
+
+@lib('numba.get_thread_id')
+def _get_thread_id(fr):
+    if fr.ctx.prange and fr.ctx.prange[-1].get('tid') is not None:
+        return fr.ctx.prange[-1]['tid']
+    return 0
+
+
+@lib('numba.get_num_threads')
+def _get_num_threads(fr):
+    return fr.ctx.ghost.setdefault('numba_threads', O.fresh_int('nthreads'))
+
+
 @lib('tqdm.tqdm', 'tqdm', 'tqdm.std.tqdm')
 def _tqdm(fr, it=None, *a, **kw):
     return it
